@@ -7,7 +7,7 @@ ROOT = os.path.dirname(os.path.dirname(os.path.abspath(__file__)))
 BASELINE = ("cd /repo && /venv/bin/python -m pytest -ra -q -p no:cacheprovider --timeout=900 "
             "--continue-on-collection-errors")
 
-NOTE = ("Trusted base: z3 5.1.0; the symx proxies/shims (validated on every run by replaying path witnesses on the "
+NOTE = ("Trusted base: z3 (wheel) with sampled unsat verdicts re-decided by z3 4.8.12 and cvc5 1.0.3; the symx proxies/shims (validated on every run by replaying path witnesses on the "
         "compiled, unshimmed strax functions); CPython/numpy object-array semantics; int64 values assumed in "
         "[0,2^62) (no wrap-around). Verdicts hold for ALL integer values within the stated SIZE bounds; nothing is "
         "claimed beyond them.")
@@ -15,7 +15,9 @@ NOTE = ("Trusted base: z3 5.1.0; the symx proxies/shims (validated on every run 
 CLAIMED = {
     # id: (technique, level text, design ref)
     "C17": ("symbolic execution of the Python source of strax's njit interval kernels on z3-backed proxy arrays; "
-            "per-path unsat verdicts against quadratic set definitions; witnesses replayed on compiled code",
+            "per-path unsat verdicts against quadratic set definitions; witnesses replayed on compiled code; machine width of "
+            "length*dt in strax.endtime decided per region by native replay of the path witnesses (proxies are mathematical "
+            "integers); sampled unsat verdicts re-decided by z3 4.8.12 and cvc5 1.0.3",
             "Bounded model checking by per-path symbolic execution of the real functions: for every array size within "
             "the bound, every placement of the intervals on Z is covered by an explored path whose obligations z3 "
             "answers unsat. Right level because the kernels are integer comparison logic where the rare coincidences "
